@@ -114,3 +114,74 @@ func H_C17_identities() {
 		vrtAssert(refEqual(l, r), "equivalent spellings give different results")
 	}
 }
+
+// quoteIdents rewrites every unquoted identifier that names a member (not a
+// function, keyword or variable) as a quoted identifier.
+func quoteIdents(expr string) string {
+	out := ""
+	i := 0
+	for i < len(expr) {
+		c := expr[i]
+		switch {
+		case c == '`' || c == '\'' || c == '"':
+			j := i + 1
+			for j < len(expr) && expr[j] != c {
+				if expr[j] == '\\' {
+					j++
+				}
+				j++
+			}
+			if j >= len(expr) {
+				j = len(expr) - 1
+			}
+			out += expr[i : j+1]
+			i = j + 1
+		case c == '$':
+			j := i + 1
+			for j < len(expr) && (expr[j] == '_' || expr[j] >= 'a' && expr[j] <= 'z' || expr[j] >= 'A' && expr[j] <= 'Z' || expr[j] >= '0' && expr[j] <= '9') {
+				j++
+			}
+			out += expr[i:j]
+			i = j
+		case c == '_' || c >= 'a' && c <= 'z' || c >= 'A' && c <= 'Z':
+			j := i
+			for j < len(expr) && (expr[j] == '_' || expr[j] >= 'a' && expr[j] <= 'z' || expr[j] >= 'A' && expr[j] <= 'Z' || expr[j] >= '0' && expr[j] <= '9') {
+				j++
+			}
+			w := expr[i:j]
+			if (j < len(expr) && expr[j] == '(') || w == "let" || w == "in" {
+				out += w
+			} else {
+				out += "\"" + w + "\""
+			}
+			i = j
+		default:
+			out += string(c)
+			i++
+		}
+	}
+	return out
+}
+
+// H_C17_quoted: a quoted identifier means what the unquoted one means in
+// every position (after a parenthesis, a projection, a pipe, inside
+// multi-selects, filters and expression references).
+func H_C17_quoted() {
+	c01Spec()
+	all := append(append([]string{}, c01Bool...), "(a[:1]).b", "(a[*].b).a.b", "(a[].b).a", "(a[?a].b).a", "a[*].b.a", "a | b", "[a, b].a", "{x: a}.x.b", "sort_by(a, &b)[*].a", "map(&a, b)", "(a).b", "((a[*].b)).a", "let $x = a in $x.b", "a[?b == a].b", "*.a", "(*.a).b", "(a.*).b", "(a[*][0]).b")
+	k := vrtChoose("expr", len(all))
+	expr := all[k]
+	q := quoteIdents(expr)
+	vrtNote("template:" + expr)
+	doc := vrtDoc("d", c01Depth(expr), uJSON, uJSON)
+	r1, err1 := Search(expr, doc)
+	r2, err2 := Search(q, doc)
+	vrtAssert((err1 == nil) == (err2 == nil), "quoting the identifiers changes whether the expression fails")
+	if err1 == nil && err2 == nil {
+		if c01Unordered(expr) {
+			vrtAssert(refEqualMS(r1, r2), "quoting the identifiers changes the result")
+		} else {
+			vrtAssert(refEqual(r1, r2), "quoting the identifiers changes the result")
+		}
+	}
+}
